@@ -36,4 +36,14 @@ def grad (flags : List Bool) : Option (List Int) → Option (List (Option Nat))
       | some k, some l => some (slot flags k :: l)
       | _, _ => none) (some [])
 
+/-! `grad_list(val, tensors, all_in_one)`: the layout of the result for fully watched tensors of the given orders (numbers of cores).
+Entry `(t, k)` stands for `tensors[t].cores[k].grad`. -/
+
+/-- `all_in_one = False`: one list per tensor, in the order of `tensors`, each with that tensor's own number of cores -/
+def gradListNested (orders : List Nat) : List (List (Nat × Nat)) :=
+  (List.range orders.length).map (fun t => (List.range (orders.getD t 0)).map (fun k => (t, k)))
+
+/-- `all_in_one = True`: the same entries in one flat list -/
+def gradListFlat (orders : List Nat) : List (Nat × Nat) := (gradListNested orders).flatten
+
 end TT.GradApi
